@@ -152,6 +152,9 @@ func VerifC14Adj(ne, layout int) {
 		g = ts
 	}
 	verifrt.Assert(verifAdjacent(g, n, m, dir) == verifSpecAdj(edges, nil, nil, n, m, dir), name+": adjacency set equals the edge list's (both = union of in and out)")
+	// queries do not change the graph: a second query, in any direction, sees the same graph
+	dir2 := verifDirection()
+	verifrt.Assert(verifAdjacent(g, n, m, dir2) == verifSpecAdj(edges, nil, nil, n, m, dir2), name+": adjacency set equals the edge list's (both = union of in and out)")
 	verifrt.Assert(g.NumNodes() == uint64(verifNodeCount(edges, []uint64{extra}, nil)), name+": NumNodes counts the distinct node ids")
 	verifrt.Assert(verifHasNode(g, m) == verifIsNode(edges, []uint64{extra}, m), name+": EachNode yields exactly the node set")
 }
